@@ -38,12 +38,31 @@ def load_known():
 
 # ---------------------------------------------------------------- Coq side
 
-def build_coq(log):
-    """Full incremental .vo build of Lib/Model/Proofs/Props under a lock."""
+def coq_targets(cfg):
+    """.vo files this property needs: its Props file and the model modules its Cases header imports."""
+    t = [cfg.get("props_file", "Props/%s.v" % cfg["id"]) + "o"]
+    try:
+        src = open(os.path.join(HARNESS, "cmd", cfg["harness"], "main.go")).read()
+        for m in re.finditer(r"\b(Model|Lib|Spec|Proofs)\.([A-Za-z0-9_]+)", src):
+            f = "%s/%s.vo" % (m.group(1), m.group(2))
+            if os.path.exists(os.path.join(COQ, f[:-1])) and f not in t:
+                t.append(f)
+    except OSError:
+        pass
+    return t + [x for x in cfg.get("coq_targets", []) if x not in t]
+
+
+def build_coq(log, cfg=None):
+    """Incremental full (.vo) build, under a lock, of what this property depends on
+    (setup.sh builds the whole development; a check must not wait for unrelated files)."""
     os.makedirs(GEN, exist_ok=True)
+    targets = coq_targets(cfg) if cfg else []
     with open(os.path.join(COQ, ".lock"), "w") as lk:
         fcntl.flock(lk, fcntl.LOCK_EX)
-        rc, out = sh(["./mk.sh", "-k"], cwd=COQ, timeout=3300)
+        try:
+            rc, out = sh(["./mk.sh", "-k"] + targets, cwd=COQ, timeout=int(os.environ.get("COQ_BUILD_TIMEOUT", "1500")) + 60)
+        except subprocess.TimeoutExpired:
+            rc, out = 124, "coq build timed out"
     log.append(("coq build", rc, out[-4000:]))
     return rc == 0, out
 
@@ -97,11 +116,13 @@ def run_translator(cfg, log):
     tr = cfg.get("translator")
     if not tr:
         return 0, [], {}
-    shutil.copyfile(os.path.join(REPO, "go.sum"), os.path.join(ROOT, "tools", "go2coq", "go.sum"))
-    rc, out = sh(tr["cmd"], cwd=ROOT, env=GOENV, timeout=tr.get("timeout_s", 600))
+    g2c = os.path.join(HARNESS, "bin", "go2coq")
+    if not os.path.exists(g2c):
+        sh(["go", "build", "-o", g2c, "."], cwd=os.path.join(ROOT, "tools", "go2coq"), env=GOENV, timeout=600)
+    rc, out = sh(tr["cmd"].replace("$REPO", REPO), cwd=ROOT, env=GOENV, timeout=tr.get("timeout_s", 600))
     log.append(("translator", rc, out[-6000:]))
     if rc != 0:
-        return 0, ["translator failed: " + out[-600:]], {"translator_output": out[-2000:]}
+        return 0, [{"name": "translator", "detail": out[-800:]}], {"translator_output": out[-2000:]}
     failed = []
     nob = 0
     info = {}
@@ -111,9 +132,18 @@ def run_translator(cfg, log):
         for m in re.finditer(r"OBLIGATION\s+(\S+)\s+(ok|FAILED)(.*)", o):
             nob += 1
             if m.group(2) != "ok":
-                failed.append(m.group(1) + m.group(3))
+                failed.append({"name": m.group(1), "detail": m.group(3)})
+        # result tuples printed by `Print R.`: ("name", true|false, None | Some (raw, expected, got))
+        flat = " ".join(o.split())
+        for m in re.finditer(r'\("((?:[^"]|"")*)", (true|false), (None|Some \((\d+), (\d+), (\d+)\))\)', flat):
+            nob += 1
+            if m.group(2) != "true":
+                f = {"name": m.group(1)}
+                if m.group(4) is not None:
+                    f.update(witness_raw=int(m.group(4)), expected=int(m.group(5)), got=int(m.group(6)))
+                failed.append(f)
         if rc != 0:
-            failed.append("%s does not compile: %s" % (vf, o[-800:]))
+            failed.append({"name": "compile:" + vf, "detail": o[-800:]})
         info[vf] = o[-3000:]
     return nob, failed, info
 
@@ -211,7 +241,7 @@ def main(argv):
     open_known = {k["id"]: k for k in known if k.get("status") == "open"}
 
     # 1. proofs
-    ok_build, bout = build_coq(log)
+    ok_build, bout = build_coq(log, cfg)
     theorems, assumptions, failed_thms = [], {}, []
     # a failure elsewhere in the development (another property's file) does not concern this
     # property: what counts is that this property's Props file and everything it imports check.
@@ -223,6 +253,24 @@ def main(argv):
     n_gen, gen_failed, gen_info = (0, [], {})
     if ok_build:
         n_gen, gen_failed, gen_info = run_translator(cfg, log)
+    # failing obligations (with their counter-examples) are handed to the harness, which
+    # re-runs them on the real code: that is where a concrete failing input comes from
+    with open(os.path.join(GEN, pid + ".failed_obligations.json"), "w") as f:
+        json.dump(gen_failed, f)
+    known_oblig = {}
+    for k in open_known.values():
+        for o in k.get("obligations", []):
+            known_oblig[o] = k
+    kept = []
+    for g in gen_failed:
+        k = known_oblig.get(g["name"])
+        if k:
+            line = "KNOWN-FINDING: property=%s %s [%s]" % (pid, k["what"], k["id"])
+            if line not in known_lines:
+                known_lines.append(line)
+        else:
+            kept.append(g)
+    gen_failed_all, gen_failed = gen_failed, kept
     # 3. correspondence
     rep, herr = run_harness(cfg, seed, tier, log)
     mism = {}
@@ -277,7 +325,7 @@ def main(argv):
     for t in failed_thms:
         broken.append("theorem no longer checks: coq/%s: %s" % (cfg.get("props_file", "Props/%s.v" % pid), t))
     for g in gen_failed:
-        broken.append("generated obligation no longer checks: " + g)
+        broken.append("generated obligation no longer checks: " + json.dumps(g))
     if herr:
         broken.append(herr)
     for shard, err in shard_errors:
